@@ -38,6 +38,10 @@ def scenarios(thorough):
         out.append(cc.mk([P(1), E(2)], lookahead=la, workers=1, split="joinheads", waits=(2,), part_with_head=True,
                          name="plain+expect head+first body byte in one read, waits la=%d" % la))
     out.append(cc.mk([E(1)], lookahead=0, split="joinheads", waits=(1,), part_with_head=True, name="expect head+first body byte, waits"))
+    # the end of one expecting request and the head of the next in the same read, both clients wait
+    for la in (0, 1):
+        out.append(cc.mk([E(1), E(2)], lookahead=la, workers=1, split="bodyhead", waits=(1, 2), name="two expecting requests, body of the first with the head of the second, both wait, la=%d" % la))
+    out.append(cc.mk([E(1), E(2), P(3)], lookahead=1, workers=2, split="bodyhead", waits=(1, 2), name="two expecting requests then plain, bodies travel with the next head, both wait"))
     out.append(cc.mk([{"k": 1, "kind": "expect_nobody"}, P(2)], lookahead=0, split="each", name="body-less expecting request then plain"))
     out.append(cc.mk([{"k": 1, "kind": "expect_nobody"}], lookahead=0, name="body-less expecting request alone"))
     out.append(cc.mk([{"k": 1, "kind": "expect10"}], lookahead=0, split="headbody", name="HTTP/1.0 with Expect"))
